@@ -27,7 +27,7 @@ CAUSES = ['shutdown', 'support-returns', 'support-raises', 'sigterm', 'ctrl-shut
           'cblock-shutdown', 'cblock-abort']     # control event sent by a CBlock, i.e. from inside the simulation task
 BOUNDS = {'quick': {'fault sites': len(FAULTS), 'termination causes': len(CAUSES),
                     'instants': 't_term, t_fault in [0, 12] s, stop_async duration vs stop_timeout symbolic',
-                    'circuit': '9 blocks (two with asynchronous initialisation), 2 creation orders'},
+                    'circuit': '10 blocks (two with asynchronous initialisation; OutputAsync in wait and in start mode), 2 creation orders'},
           'thorough': {'fault sites': len(FAULTS), 'termination causes': len(CAUSES), 'instants': 'as quick',
                        'circuit': '8 blocks, 2 creation orders, fault + independent termination combined'}}
 OUTSIDE = ["a user start() override that raises after the base class start() has already created a task "
@@ -152,11 +152,15 @@ def build(env, log, faults, order, ds, st, t_fault, cblock_ctrl=None):
             if not self.is_initialized():
                 self.set_output('regular2')
 
-    oa_calls, of_calls = [], []
+    oa_calls, of_calls, oas_calls = [], [], []
 
     async def oa_coro(value):
         oa_calls.append(value)
         await asyncio.sleep(1.0)
+
+    async def oas_coro(value):
+        oas_calls.append(value)
+        await asyncio.sleep(0.5)
 
     def of_func(value):
         of_calls.append(value)
@@ -174,6 +178,8 @@ def build(env, log, faults, order, ds, st, t_fault, cblock_ctrl=None):
         'rep': lambda: instrument(edzed.Repeat, log, faults)('rep', dest='pa', etype='x', interval=4.0, stop_timeout=2.0),
         'oa': lambda: instrument(edzed.OutputAsync, log, faults)(
             'oa', coro=oa_coro, mode='wait', stop_data={'value': 'OA-STOP'}, on_error=None, stop_timeout=3.0),
+        'oas': lambda: instrument(edzed.OutputAsync, log, faults)(
+            'oas', coro=oas_coro, mode='start', stop_data={'value': 'OAS-STOP'}, on_error=None, stop_timeout=3.0),
         'of': lambda: instrument(edzed.OutputFunc, log, faults)(
             'of', func=of_func, stop_data={'value': 'OF-STOP'}, on_error=None),
         'mt': lambda: instrument(MT, log, faults)('mt', stop_timeout=2.0),
@@ -188,10 +194,10 @@ def build(env, log, faults, order, ds, st, t_fault, cblock_ctrl=None):
     for n in order:
         blocks[n] = makers[n]()
     circ.set_persistent_data({"<IPB 'pb'>": 'saved'})
-    return circ, blocks, oa_calls, of_calls
+    return circ, blocks, oa_calls, of_calls, oas_calls
 
 
-ORDERS = [['pa', 'pb', 'pa2', 'tm', 'rep', 'oa', 'of', 'mt', 'fb'], ['fb', 'mt', 'of', 'oa', 'rep', 'tm', 'pa2', 'pb', 'pa']]
+ORDERS = [['pa', 'pb', 'pa2', 'tm', 'rep', 'oa', 'oas', 'of', 'mt', 'fb'], ['fb', 'mt', 'of', 'oas', 'oa', 'rep', 'tm', 'pa2', 'pb', 'pa']]
 
 
 def scen_life(env, fault_idx, cause, order_idx, sym_stop=False):
@@ -205,9 +211,9 @@ def scen_life(env, fault_idx, cause, order_idx, sym_stop=False):
     else:
         ds, st = (1.0, 5.0) if fault != ('pa', 'stop_async') else (1.0, 5.0)
     t_fault = env.real('t_fault', 0, 12) if timed_fault else 0.0
-    t_term = env.real('t_term', 0, 12)
+    t_term = env.real('t_term', 5.5, 8) if sym_stop else env.real('t_term', 0, 12)   # sym_stop: running phase only
     cblock_ctrl = cause[7:] if cause.startswith('cblock-') else None
-    circ, blocks, oa_calls, of_calls = build(env, log, faults, ORDERS[order_idx], ds, st, t_fault, cblock_ctrl)
+    circ, blocks, oa_calls, of_calls, oas_calls = build(env, log, faults, ORDERS[order_idx], ds, st, t_fault, cblock_ctrl)
     res = {}
     use_run = cause in ('support-returns', 'support-raises', 'sigterm')
     timed_fault = fault in (('pb', 'event'), ('fb', 'calc_output')) and not cause.startswith('cblock-')
@@ -229,6 +235,7 @@ def scen_life(env, fault_idx, cause, order_idx, sym_stop=False):
         try:
             if circ.is_ready():
                 blocks['oa'].event('put', value='w1')
+                blocks['oas'].event('put', value='w1')
                 blocks['of'].event('put', value='w1')
                 blocks['rep'].event('x', value=1)
         except Exception:
@@ -350,7 +357,7 @@ def scen_life(env, fault_idx, cause, order_idx, sym_stop=False):
         else:
             env.check('not-started-not-stopped', sp == 0, info=lambda: (n, sr, sp, fault, cause))
     # blocks with asynchronous clean-up are stopped (and awaited) before the remaining blocks
-    async_blocks = [n for n in ('pa', 'rep', 'oa', 'mt') if log.count(n, 'stop')]
+    async_blocks = [n for n in ('pa', 'rep', 'oa', 'oas', 'mt') if log.count(n, 'stop')]
     sync_blocks = [n for n in ('pb', 'pa2', 'tm', 'of', 'fb', 'trig') if log.count(n, 'stop')]
     if async_blocks and sync_blocks:
         last_async = max(log.index(n, 'stop') for n in async_blocks)
@@ -380,6 +387,8 @@ def scen_life(env, fault_idx, cause, order_idx, sym_stop=False):
         env.check('stop-data-last', bool(oa_calls) and oa_calls[-1] == 'OA-STOP', info=lambda: oa_calls)
     if log.count('of', 'start-returned'):
         env.check('stop-data-last', bool(of_calls) and of_calls[-1] == 'OF-STOP', info=lambda: of_calls)
+    if log.count('oas', 'start-returned'):
+        env.check('stop-data-last', bool(oas_calls) and oas_calls[-1] == 'OAS-STOP', info=lambda: ('oas (start mode)', oas_calls))
     env.check('frozen', not res['frozen_violations'], info=lambda: res['frozen_violations'])
     # region bookkeeping
     term = [e for e in log.ev if e[1] == 'terminate']
@@ -416,7 +425,7 @@ def shards(tier):
                     continue
                 out.append({'name': f'fault={fault} cause={cause} order={oi}', 'scenario': 'scen_life',
                             'params': {'fault_idx': fi, 'cause': cause, 'order_idx': oi}})
-    for cause in ('shutdown', 'sigterm', 'abort'):
+    for cause in (('shutdown',) if tier == 'quick' else ('shutdown', 'sigterm', 'abort')):
         for fi in (0, FAULTS.index(('pa', 'stop_async')), FAULTS.index(('pa', 'stop'))):
             out.append({'name': f'symbolic stop_async/stop_timeout fault={FAULTS[fi]} cause={cause}', 'scenario': 'scen_life',
                         'params': {'fault_idx': fi, 'cause': cause, 'order_idx': 0, 'sym_stop': True}, 'cost': 20})
